@@ -453,6 +453,14 @@ static void convert_pp_number(Token *tok) {
   if (tok->loc + tok->len != end)
     error_tok(tok, "invalid numeric constant");
 
+  // Convert the spelling directly to the type of the constant. Going
+  // through long double would round twice, and a hexadecimal constant
+  // must be correctly rounded (C11 6.4.4.2p3).
+  if (ty == ty_float)
+    val = strtof(tok->loc, NULL);
+  else if (ty == ty_double)
+    val = strtod(tok->loc, NULL);
+
   tok->kind = TK_NUM;
   tok->fval = val;
   tok->ty = ty;
